@@ -259,8 +259,10 @@ def correspondence_step(rep, cases, what):
             rep.violation("oracle", "the walk panics (%s) where the model of the committed code yields items: no error item is produced and nothing after that point is delivered" % c.head[:80],
                           c.describe(), impl=c.head[:200], model=(c.mf.get("items", c.mhead) or "")[:400])
             continue
-        if "rootnone" in c.f:
-            # an error for the root of the walk names the root, also when the root is the empty path (`Some("")`)
+        if "rootnone" in c.f and not (c.link == "t" and any(k == "lu" for _p, k, _d in rec_paths(c.f.get("rec", "-"), "@R"))):
+            # an error for the root of the walk names the root, also when the root is the empty path (`Some("")`). Exempt: under
+            # ReadTarget a root that is a LINK to a directory that cannot be opened gets walkdir's path-less error (its loop
+            # check fails before the entry exists); the recording shows such links as `lu`
             rep.violation("oracle", "the error item for the root of the walk names no path at all (%s item(s) at depth 0 with path() = None)" % c.f["rootnone"],
                           c.describe(), impl=c.impl[:300])
             continue
